@@ -150,8 +150,8 @@ def run(ctx):
     ctx.diff_stream("routes", ctx.n(5000, 150000), oracle=oracle, nontrivial=nontrivial)
     ctx.diff_stream("requests", ctx.n(6000, 200000), oracle=oracle, nontrivial=nontrivial)
     ctx.diff_stream("vhosts", ctx.n(4000, 100000), oracle=oracle, nontrivial=nontrivial)
-    ctx.diff_stream("rds", ctx.n(1500, 25000), oracle=oracle, nontrivial=nontrivial)
-    ctx.diff_stream("gw", ctx.n(1500, 25000), oracle=oracle, nontrivial=nontrivial)
+    ctx.diff_stream("rds", ctx.n(1000, 25000), oracle=oracle, nontrivial=nontrivial)
+    ctx.diff_stream("gw", ctx.n(1000, 25000), oracle=oracle, nontrivial=nontrivial)
     # witnesses of the known findings (corpus only): each must still reproduce, as KNOWN-FINDING
     ctx.diff_stream("known-requests", 0, oracle=oracle, nontrivial=nontrivial)
     ctx.diff_stream("known-rds", 0, oracle=oracle, nontrivial=nontrivial)
